@@ -31,4 +31,3 @@ func Key(rel string) string {
 	}
 	return s + "-" + hex.EncodeToString(h[:4])
 }
-
